@@ -62,9 +62,145 @@ def capture_subregexes(parsed):
     return out
 
 
+def capture_spans(rx):
+    """(index of '(', index of its ')') of every capturing group of a regex text, in opening order (a small scanner: escapes, bracket
+    classes, `(?...` forms).  Validated per use against re.compile(rx).groups."""
+    spans = []
+    stack = []
+    i, n = 0, len(rx)
+    while i < n:
+        c = rx[i]
+        if c == '\\':
+            i += 2
+            continue
+        if c == '[':
+            i += 1
+            if i < n and rx[i] == '^':
+                i += 1
+            if i < n and rx[i] == ']':
+                i += 1
+            while i < n and rx[i] != ']':
+                i += 2 if rx[i] == '\\' else 1
+            i += 1
+            continue
+        if c == '(':
+            cap = not rx.startswith('(?', i) or rx.startswith('(?P<', i)
+            if cap:
+                spans.append([i, None])
+                stack.append(len(spans) - 1)
+            else:
+                stack.append(None)
+        elif c == ')':
+            k = stack.pop()
+            if k is not None:
+                spans[k][1] = i
+        i += 1
+    return [tuple(x) for x in spans]
+
+
+def mark_regex(rx, k):
+    """The regex with literal markers put around the body of capturing group number k (0-based): `(<(?:body)>)`."""
+    spans = capture_spans(rx)
+    if len(spans) != re.compile(rx).groups or any(c is None for _o, c in spans):
+        return None
+    o, c = spans[k]
+    return rx[:o + 1] + '<(?:' + rx[o + 1:c] + ')>' + rx[c:]
+
+
+def render_marked(nodes, k, counter=None):
+    """Pattern text of a node tuple with `<` `>` written around extended group number k (opening order, 0-based)."""
+    counter = counter if counter is not None else [0]
+    out = []
+    for n in nodes:
+        if n[0] == 'grp':
+            mine = counter[0]
+            counter[0] += 1
+            body = n[1] + '(' + '|'.join(render_marked(a, k, counter) for a in n[2]) + ')'
+            out.append('<' + body + '>' if mine == k else body)
+        elif n[0] == 'neg':
+            raise ValueError('negation')
+        else:
+            out.append(gen.render_nodes((n,)))
+    return ''.join(out)
+
+
+def render_path_marked(items, k):
+    counter = [0]
+    out = []
+    for it in items:
+        if it[0] == 'seg':
+            out.append(render_marked(it[1], k, counter))
+        else:
+            out.append(gen.render_path((it,)))
+    return ''.join(out)
+
+
+def work_capture(item, N):
+    """Capture clause, semantic part: translate(P) with markers around the body of capture group k must have the language of the
+    real matcher for the pattern P with the same markers written around extended group k - for every name up to N."""
+    mode, (ast, k), flags, _exclude, _ng = item
+    base = mode[:2]
+    if base == 'fn':
+        text, marked = gen.render_nodes(ast), render_marked(ast, k)
+    else:
+        text, marked = gen.render_path(ast), render_path_marked(ast, k)
+    res = {'item': (base, text, flags, None), 'capture': (k, marked), 'status': 'ok', 'queries': 0, 'solver_s': 0.0, 'sat': 0, 'unsat': 0, 'unknown': 0}
+    try:
+        tinc, texc = e1.real_translate(base, text, flags, None)
+        minc, mexc = e1.real_regexes(base, marked, flags, None)
+    except Exception as ex:  # noqa: BLE001
+        res['status'] = 'translate_raises'
+        res['exc'] = type(ex).__name__
+        return res
+    if len(tinc) != 1 or texc:
+        res['status'] = 'not_encodable'
+        res['exc'] = 'capture clause: translate returned %d inclusion regexes' % len(tinc)
+        return res
+    try:
+        t2 = mark_regex(tinc[0], k)
+    except (IndexError, re.error):
+        t2 = None
+    if t2 is None:
+        res['status'] = 'not_encodable'
+        res['exc'] = 'capture clause: group scanner disagrees with re.compile().groups on ' + tinc[0]
+        return res
+    try:
+        pr = e1.Pair(N, False)
+        ft = pr.matcher_fullmatch([t2], [])
+        fm = pr.matcher(minc, mexc)
+        r, w, dt = pr.differ(ft, fm)
+    except NotEncodable as ex:
+        res['status'] = 'not_encodable'
+        res['exc'] = str(ex)
+        return res
+    res['queries'] += 1
+    res['solver_s'] += dt
+    res[r] += 1
+    res['nontrivial'] = True
+    if r == 'sat':
+        res['status'] = 'capture_diff'
+        res['witness'] = w
+        return res
+    if r != 'unsat':
+        res['status'] = 'unknown'
+        return res
+    ra, wa, dt1 = pr.find(fm)
+    res['queries'] += 1
+    res['solver_s'] += dt1
+    res['acc'] = wa
+    if ra == 'unknown':
+        res['status'] = 'unknown'
+    elif wa is not None and (not e1.concrete_match(minc, mexc, wa) or re.fullmatch(t2, wa) is None):
+        res['status'] = 'encoder_mismatch'
+        res['witness'] = wa
+    return res
+
+
 def work(item, N):
     """One (mode, pats, flags, exclude, nodes-or-None) obligation."""
     mode, pats, flags, exclude, ngroups = item
+    if mode in ('fncap', 'glcap'):
+        return work_capture(item, N)
     res = {'item': (mode, pats, flags, exclude), 'status': 'ok', 'queries': 0, 'solver_s': 0.0, 'sat': 0, 'unsat': 0, 'unknown': 0}
     if mode == 'glcount':
         # capture clause only (REALPATH: the match equivalence is stated without it)
@@ -192,6 +328,29 @@ def build_items(ctx, rnd):
         ng = sum(gen.count_groups(x[1]) for x in it if x[0] == 'seg')
         for f in (G.EXTGLOB | G.GLOBSTAR | RP, G.EXTGLOB | G.GLOBSTAR | RP | G.DOTGLOB | G.MATCHBASE, G.EXTGLOB | G.GLOBSTARLONG | RP | G.FOLLOW):
             items.append(('glcount', text, f, None, ng))
+    # capture clause, semantic part (negation-free patterns, dot guards off so that a marker in front of a group changes nothing else)
+    ncap = 0
+    for k, nodes in enumerate(segs):
+        ng = gen.count_groups(nodes)
+        if not ng or gen.has_kind(nodes, 'neg') or regions.star_before_star_group(nodes):
+            continue
+        if quick and ncap % 3:
+            ncap += 1
+            continue
+        ncap += 1
+        for g in range(min(ng, 3)):
+            items.append(('fncap', (nodes, g), F.EXTMATCH | F.DOTMATCH, None, None))
+    for k, it in enumerate(paths):
+        segs_ = [x[1] for x in it if x[0] == 'seg']
+        ng = sum(gen.count_groups(x) for x in segs_)
+        if not ng or any(gen.has_kind(x, 'neg') or regions.star_before_star_group(x) for x in segs_):
+            continue
+        if quick and ncap % 3:
+            ncap += 1
+            continue
+        ncap += 1
+        for g in range(min(ng, 3)):
+            items.append(('glcap', (it, g), G.EXTGLOB | G.GLOBSTAR | G.DOTGLOB, None, None))
     # NODIR x Windows x bytes: the translate() text of the NODIR exclusion is a separate constant for each combination
     for k, it in enumerate(paths[:: (12 if quick else 2)]):
         text = gen.render_path(it)
@@ -247,6 +406,7 @@ def run(ctx):
     nontrivial = set()
     samples = []
     known_region_hits = 0
+    ncapture = 0
     for res in results:
         for k in q:
             q[k] += res[k]
@@ -254,7 +414,9 @@ def run(ctx):
         st = res['status']
         mode, pats, flags, exclude = res['item']
         if res.get('nontrivial'):
-            nontrivial.add(repr(res['item']))
+            nontrivial.add(repr((res['item'], res.get('capture'))))
+        if 'capture' in res:
+            ncapture += 1
         if st == 'ok':
             if len(samples) < 6 and res.get('nontrivial'):
                 samples.append({'mode': mode, 'patterns': pats, 'flags': e1.flagnames(mode, flags), 'exclude': exclude,
@@ -296,6 +458,14 @@ def run(ctx):
                 'steps': [{'as': 'ok', 'call': 'engine.replayfn.translate_and_compile_ok', 'args': [mode, pats, kw]}],
                 'assert': 'ok == True',
             }
+        elif st == 'capture_diff':
+            k, marked = res['capture']
+            rep = {
+                'describe': f'capture group {k + 1} of translate({pats!r}) does not capture the text consumed by extended group {k + 1}: with markers around '
+                            f'the group body the regex and the pattern {marked!r} disagree on {res["witness"]!r}',
+                'steps': [{'as': 'v', 'call': 'engine.replayfn.capture_marker', 'args': [mode, pats, marked, k, res['witness'], kw]}],
+                'assert': 'v[0] == v[1]',
+            }
         elif st == 'group_count':
             rep = {
                 'describe': f'capturing groups {res["groups"][0]} != extended groups in pattern {res["groups"][1]}',
@@ -308,7 +478,7 @@ def run(ctx):
         common.confirm(ctx, rep)
     ctx.coverage.update({
         'evaluations': q['sat'] + q['unsat'] + q['unknown'],
-        'distinct_nontrivial': len(nontrivial),
+        'distinct_nontrivial': len(nontrivial), 'capture_text_obligations': ncapture,
         'rule': 'one obligation per (mode, pattern list, flags, exclude); non-trivial = translate() text differs from the executed '
                 'regex text (capture groups present), so the equality is not syntactic; evaluations = solver queries',
         'samples': samples,
